@@ -161,6 +161,10 @@ void logline(const char* fmt, ...) __attribute__((format(printf, 1, 2)));
 // scheduling steps, else violation(oracle).
 int expect_progress(const char* oracle, const char* what, uint64_t steps);
 void progress_done(int handle);
+// something productive happened (a frame moved, a thread finished): every
+// active budget starts counting again.  Budgets thus bound the number of
+// scheduling steps WITHOUT progress, not the length of a healthy run.
+void progress_kick();
 
 // deadlock policy: what to do when every thread is blocked and no timer is
 // pending.  Default: violation("deadlock").  A harness may install a hook that
